@@ -10,7 +10,7 @@
                                 VALUE is written in (they differ only below a struct literal
                                 whose struct lives in another file)
      eval_top                   vf = tf (constants, field defaults)
-     ident_value                getIDValue: a constant of the value file / of an include, or
+     denotes                    getIDValue: a constant of the value file / of an include, or
                                 an enum member
      go_unquote / go_string     the documented literal rule (docs/string-literals-in-the-IDL.md):
                                 the text is copied between double quotes with only the double
@@ -320,19 +320,6 @@ Definition denotes (p : program) (vf : file) (ex : const_extra) : result denot :
     | None => Error EUndefined
     end.
 
-(* getIDValue at the value level; [ev g t c] evaluates a constant of file g *)
-Definition ident_value (ev : file -> ty -> const_value -> result cval)
-           (p : program) (vf : file) (extra : option const_extra) : result cval :=
-  match extra with
-  | None => Error EInternal                (* v.Extra is nil: nil dereference in getIDValue *)
-  | Some ex =>
-    d <- denotes p vf ex ;;
-    match d with
-    | DEnum z => Ok (VInt z)
-    | DConst g co => ev g (co_type co) (co_value co)
-    end
-  end.
-
 (* ---------------------------------------------------------------- struct literals *)
 
 Definition key_names (fd : field) (kv : const_value * const_value) : bool :=
@@ -365,81 +352,181 @@ Definition struct_slots (q : quirks) (ev : ty -> const_value -> result cval)
                | _ => Error EField           (* duplicate field name in a Go composite literal *)
                end) (sl_fields s).
 
+(* Go map literal keyed by pointers to a struct-like WITHOUT fields: the gc runtime gives every
+   zero-size allocation the same address, so all such keys are one key and the last entry wins
+   (struct keys with fields are distinct pointers and never collapse) *)
+Definition is_empty_struct (v : cval) : bool := match v with VStruct [] => true | _ => false end.
+Fixpoint collapse_empty (kvs : list (cval * cval)) : list (cval * cval) :=
+  match kvs with
+  | [] => []
+  | kv :: r =>
+    if is_empty_struct (fst kv) && existsb (fun kv' => is_empty_struct (fst kv')) r
+    then collapse_empty r else kv :: collapse_empty r
+  end.
+
+(* ---------------------------------------------------------------- typing *)
+
+Section Forall2b.
+  Context {A B : Type} (f : A -> B -> bool).
+  Fixpoint forall2b (la : list A) (lb : list B) : bool :=
+    match la, lb with
+    | [], [] => true
+    | a :: ra, b :: rb => f a b && forall2b ra rb
+    | _, _ => false
+    end.
+End Forall2b.
+
+(* [has_type fuel p tf t v]: v is a Go value of the plain representation of type t (written in
+   file tf).  Struct slots: a pointer slot is nil or points to a typed value; VAny is accepted
+   in a slot (idl_rules).  Fuel bounds the nesting of struct values. *)
+Fixpoint has_type (fuel : nat) (p : program) (tf : file) (t : ty) (v : cval) {struct fuel} : bool :=
+  match fuel with
+  | O => false
+  | S k =>
+    let cat := ty_category t in
+    match cat with
+    | CatBool => match v with VBool _ => true | _ => false end
+    | CatByte | CatI16 | CatI32 | CatI64 => match v with VInt z => in_int_range cat z | _ => false end
+    | CatDouble => match v with VDbl b => (0 <=? b) && (b <? 2 * two63) | _ => false end
+    | CatString => match v with VStr _ => true | _ => false end
+    | CatBinary => match v with VBin _ => true | _ => false end
+    | CatEnum => match v with VInt _ => true | _ => false end
+    | CatList | CatSet =>
+      match v with
+      | VList l => match l with
+                   | [] => true
+                   | _ => match ty_value t with Some et => forallb (has_type k p tf et) l | None => false end
+                   end
+      | _ => false
+      end
+    | CatMap =>
+      match v with
+      | VMap l => match l with
+                  | [] => true
+                  | _ => match ty_key t, ty_value t with
+                         | Some kt, Some vt =>
+                           forallb (fun kv => has_type k p tf (bin2str kt) (fst kv) && has_type k p tf vt (snd kv)) l
+                         | _, _ => false
+                         end
+                  end
+      | _ => false
+      end
+    | CatStruct | CatUnion | CatException =>
+      match v with
+      | VStruct fs =>
+        match get_struct_like p tf t with
+        | Ok (g, s) =>
+          forall2b (fun fd e =>
+                      (fst e =? fd_id fd) &&
+                      match snd e with
+                      | VNil => need_redirect fd || negb (is_base_or_enum (fd_cat fd)) || is_binary (fd_cat fd)
+                      | VSome (VSome VNil) => true
+                      | VSome x => need_redirect fd && is_base_or_enum (fd_cat fd) && has_type k p g (fd_type fd) x
+                      | x => negb (need_redirect fd && is_base_or_enum (fd_cat fd)) && has_type k p g (fd_type fd) x
+                      end) (sl_fields s) fs
+        | Error _ => false
+        end
+      | _ => false
+      end
+    | _ => false
+    end
+  end.
+
 (* ---------------------------------------------------------------- eval *)
 
-Definition expect_bool (v : cval) : result cval := match v with VBool _ => Ok v | _ => Error EKind end.
-Definition expect_dbl (v : cval) : result cval := match v with VDbl _ => Ok v | _ => Error EKind end.
-Definition expect_str (v : cval) : result cval := match v with VStr _ => Ok v | _ => Error EKind end.
-Definition expect_list (v : cval) : result cval := match v with VList _ => Ok v | _ => Error EKind end.
-Definition expect_map (v : cval) : result cval := match v with VMap _ => Ok v | _ => Error EKind end.
-Definition expect_struct (v : cval) : result cval := match v with VStruct _ => Ok v | _ => Error EKind end.
-(* "T(IDENT)": an integer constant that fits T *)
-Definition expect_int (c : category) (v : cval) : result cval :=
-  match v with
-  | VInt z => if in_int_range c z then Ok v else Error ERange
-  | _ => Error EKind
+(* the categories resolveConst has a case for *)
+Definition value_category (c : category) : bool :=
+  is_base_category c || is_container_category c || is_struct_like_category c ||
+  match c with CatEnum => true | _ => false end.
+
+(* how each category treats the words true / false (before any lookup) *)
+Definition bool_word (cat : category) (s : bytes) : option (result cval) :=
+  if is_true s || is_false s then
+    match cat with
+    | CatBool => Some (Ok (VBool (is_true s)))
+    | CatByte | CatI16 | CatI32 | CatI64 => Some (Ok (VInt (if is_true s then 1 else 0)))
+    | CatDouble => Some (Ok (VDbl (if is_true s then 4607182418800017408 else 0)))   (* "1.0" / "0.0" *)
+    | CatString | CatBinary => Some (Error EKind)
+    | _ => None                              (* looked up like any identifier: Extra is nil *)
+    end
+  else None.
+
+(* the value an identifier stands for must fit the position it is written in: scalars by
+   their Go kind ("T(IDENT)" for integers, "[]byte(IDENT)" for binary), containers and
+   struct-likes by their type *)
+Definition expect (k : nat) (p : program) (tf : file) (t : ty) (v : cval) : result cval :=
+  match ty_category t with
+  | CatBool => match v with VBool _ => Ok v | _ => Error EKind end
+  | CatByte | CatI16 | CatI32 | CatI64 =>
+    match v with
+    | VInt z => if in_int_range (ty_category t) z then Ok v else Error ERange
+    | _ => Error EKind
+    end
+  | CatDouble => match v with VDbl _ => Ok v | _ => Error EKind end
+  | CatString => match v with VStr _ => Ok v | _ => Error EKind end
+  | CatBinary => match v with VBin s => Ok (VBin s) | VStr s => Ok (VBin s) | _ => Error EKind end
+  | CatEnum => match v with VInt _ => Ok v | _ => Error EKind end
+  | _ => if has_type k p tf t v then Ok v else Error EKind
   end.
-(* enum context: the identifier is copied *)
-Definition expect_enum (v : cval) : result cval := match v with VInt _ => Ok v | _ => Error EKind end.
-(* "[]byte(IDENT)": a []byte or a string *)
-Definition expect_bin (v : cval) : result cval :=
-  match v with VBin s => Ok (VBin s) | VStr s => Ok (VBin s) | _ => Error EKind end.
+
+Definition empty_container (cat : category) : cval :=
+  match cat with CatMap => VMap [] | _ => VList [] end.
 
 Fixpoint eval (q : quirks) (fuel : nat) (p : program) (vf tf : file) (t : ty) (c : const_value)
          {struct fuel} : result cval :=
   match fuel with
   | O => Error EFuel
   | S k =>
-    let ident := ident_value (fun g t' c' => eval q k p g g t' c') p vf in
     let cat := ty_category t in
-    match cat with
-    | CatBool =>
-      match c with
-      | CInt z => Ok (VBool (0 <? z))
-      | CDouble b => Ok (VBool (dbl_pos (Z.of_N b)))
-      | CIdent s ex =>
-        if is_true s then Ok (VBool true) else if is_false s then Ok (VBool false)
-        else v <- ident ex ;; expect_bool v
+    if negb (value_category cat) then Error EKind else
+    match c with
+    | CIdent s extra =>
+      match bool_word cat s with
+      | Some r => r
+      | None =>
+        match extra with
+        | None => Error EInternal              (* v.Extra is nil: nil dereference in getIDValue *)
+        | Some ex =>
+          match denotes p vf ex with
+          | Error EUndefined =>
+            (* getIDValue found nothing: "undefined value", except in a container position *)
+            if is_container_category cat && q_fault_tolerant q then Ok (empty_container cat) else Error EUndefined
+          | Error e => Error e
+          | Ok d =>
+            v <- match d with
+                 | DEnum z => Ok (VInt z)
+                 | DConst g co => eval q k p g g (co_type co) (co_value co)
+                 end ;;
+            expect k p tf t v
+          end
+        end
+      end
+    | CInt z =>
+      match cat with
+      | CatBool => Ok (VBool (0 <? z))
+      | CatByte | CatI16 | CatI32 | CatI64 => if in_int_range cat z then Ok (VInt z) else Error ERange
+      | CatDouble => Ok (VDbl (z_to_double z))
+      | CatEnum => Ok (VInt z)
+      | CatList | CatSet | CatMap => if q_fault_tolerant q then Ok (empty_container cat) else Error EKind
       | _ => Error EKind
       end
-    | CatByte | CatI16 | CatI32 | CatI64 =>
-      match c with
-      | CInt z => if in_int_range cat z then Ok (VInt z) else Error ERange
-      | CIdent s ex =>
-        if is_true s then Ok (VInt 1) else if is_false s then Ok (VInt 0)
-        else v <- ident ex ;; expect_int cat v
+    | CDouble b =>
+      match cat with
+      | CatBool => Ok (VBool (dbl_pos (Z.of_N b)))
+      | CatDouble => go_double q (Z.of_N b)
+      | CatList | CatSet | CatMap => if q_fault_tolerant q then Ok (empty_container cat) else Error EKind
       | _ => Error EKind
       end
-    | CatDouble =>
-      match c with
-      | CInt z => Ok (VDbl (z_to_double z))
-      | CDouble b => go_double q (Z.of_N b)
-      | CIdent s ex =>
-        if is_true s then Ok (VDbl (z_to_double 1)) else if is_false s then Ok (VDbl 0)
-        else v <- ident ex ;; expect_dbl v
+    | CLiteral s =>
+      match cat with
+      | CatString => b <- go_string s ;; Ok (VStr b)
+      | CatBinary => b <- go_string s ;; Ok (VBin b)
+      | CatList | CatSet | CatMap => if q_fault_tolerant q then Ok (empty_container cat) else Error EKind
       | _ => Error EKind
       end
-    | CatString =>
-      match c with
-      | CLiteral s => b <- go_string s ;; Ok (VStr b)
-      | CIdent s ex => if is_true s || is_false s then Error EKind else v <- ident ex ;; expect_str v
-      | _ => Error EKind
-      end
-    | CatBinary =>
-      match c with
-      | CLiteral s => b <- go_string s ;; Ok (VBin b)
-      | CIdent s ex => if is_true s || is_false s then Error EKind else v <- ident ex ;; expect_bin v
-      | _ => Error EKind
-      end
-    | CatEnum =>
-      match c with
-      | CInt z => Ok (VInt z)
-      | CIdent s ex => v <- ident ex ;; expect_enum v
-      | _ => Error EKind
-      end
-    | CatList | CatSet =>
-      match c with
-      | CList l =>
+    | CList l =>
+      match cat with
+      | CatList | CatSet =>
         match l with
         | [] => Ok (VList [])
         | _ => match ty_value t with
@@ -447,57 +534,29 @@ Fixpoint eval (q : quirks) (fuel : nat) (p : program) (vf tf : file) (t : ty) (c
                | None => Error EInternal       (* typedef'd container: ValueType is nil *)
                end
         end
-      | CIdent s ex =>
-        match ex with
-        | None => Error EInternal
-        | Some _ =>
-          match ident ex with
-          | Ok v => expect_list v
-          | Error EUndefined => if q_fault_tolerant q then Ok (VList []) else Error EUndefined
-          | Error e => Error e
-          end
-        end
-      | _ => if q_fault_tolerant q then Ok (VList []) else Error EKind
+      | CatMap => if q_fault_tolerant q then Ok (VMap []) else Error EKind
+      | _ => Error EKind
       end
-    | CatMap =>
-      match c with
-      | CMap l =>
+    | CMap l =>
+      match cat with
+      | CatMap =>
         match l with
         | [] => Ok (VMap [])
         | _ => match ty_key t, ty_value t with
                | Some kt, Some vt =>
                  kvs <- mapM (fun kv => a <- eval q k p vf tf (bin2str kt) (fst kv) ;;
                                         b <- eval q k p vf tf vt (snd kv) ;; Ok (a, b)) l ;;
-                 Ok (VMap kvs)
+                 Ok (VMap (collapse_empty kvs))
                | _, _ => Error EInternal
                end
         end
-      | CIdent s ex =>
-        match ex with
-        | None => Error EInternal
-        | Some _ =>
-          match ident ex with
-          | Ok v => expect_map v
-          | Error EUndefined => if q_fault_tolerant q then Ok (VMap []) else Error EUndefined
-          | Error e => Error e
-          end
-        end
-      | _ => if q_fault_tolerant q then Ok (VMap []) else Error EKind
-      end
-    | CatStruct | CatUnion | CatException =>
-      match c with
-      | CIdent s ex =>
-        match ex with
-        | None => Error EInternal
-        | Some _ => v <- ident ex ;; expect_struct v
-        end
-      | CMap l =>
+      | CatList | CatSet => if q_fault_tolerant q then Ok (VList []) else Error EKind
+      | CatStruct | CatUnion | CatException =>
         gs <- get_struct_like p tf t ;;
         fs <- struct_slots q (eval q k p vf (fst gs)) (snd gs) l ;;
         Ok (VStruct fs)
       | _ => Error EKind
       end
-    | _ => Error EKind
     end
   end.
 
@@ -609,71 +668,3 @@ Definition getter (fd : field) (dv : option cval) (slot : cval) : cval :=
     then (if need_redirect fd && is_base_or_enum (fd_cat fd) then unsome slot else slot)
     else default_var fd dv
   else slot.
-
-(* ---------------------------------------------------------------- typing *)
-
-Section Forall2b.
-  Context {A B : Type} (f : A -> B -> bool).
-  Fixpoint forall2b (la : list A) (lb : list B) : bool :=
-    match la, lb with
-    | [], [] => true
-    | a :: ra, b :: rb => f a b && forall2b ra rb
-    | _, _ => false
-    end.
-End Forall2b.
-
-(* [has_type fuel p tf t v]: v is a Go value of the plain representation of type t (written in
-   file tf).  Struct slots: a pointer slot is nil or points to a typed value; VAny is accepted
-   in a slot (idl_rules).  Fuel bounds the nesting of struct values. *)
-Fixpoint has_type (fuel : nat) (p : program) (tf : file) (t : ty) (v : cval) {struct fuel} : bool :=
-  match fuel with
-  | O => false
-  | S k =>
-    let cat := ty_category t in
-    match cat with
-    | CatBool => match v with VBool _ => true | _ => false end
-    | CatByte | CatI16 | CatI32 | CatI64 => match v with VInt z => in_int_range cat z | _ => false end
-    | CatDouble => match v with VDbl b => (0 <=? b) && (b <? 2 * two63) | _ => false end
-    | CatString => match v with VStr _ => true | _ => false end
-    | CatBinary => match v with VBin _ => true | _ => false end
-    | CatEnum => match v with VInt _ => true | _ => false end
-    | CatList | CatSet =>
-      match v with
-      | VList l => match l with
-                   | [] => true
-                   | _ => match ty_value t with Some et => forallb (has_type k p tf et) l | None => false end
-                   end
-      | _ => false
-      end
-    | CatMap =>
-      match v with
-      | VMap l => match l with
-                  | [] => true
-                  | _ => match ty_key t, ty_value t with
-                         | Some kt, Some vt =>
-                           forallb (fun kv => has_type k p tf (bin2str kt) (fst kv) && has_type k p tf vt (snd kv)) l
-                         | _, _ => false
-                         end
-                  end
-      | _ => false
-      end
-    | CatStruct | CatUnion | CatException =>
-      match v with
-      | VStruct fs =>
-        match get_struct_like p tf t with
-        | Ok (g, s) =>
-          forall2b (fun fd e =>
-                      (fst e =? fd_id fd) &&
-                      match snd e with
-                      | VNil => need_redirect fd || negb (is_base_or_enum (fd_cat fd)) || is_binary (fd_cat fd)
-                      | VSome (VSome VNil) => true
-                      | VSome x => need_redirect fd && is_base_or_enum (fd_cat fd) && has_type k p g (fd_type fd) x
-                      | x => negb (need_redirect fd && is_base_or_enum (fd_cat fd)) && has_type k p g (fd_type fd) x
-                      end) (sl_fields s) fs
-        | Error _ => false
-        end
-      | _ => false
-      end
-    | _ => false
-    end
-  end.
